@@ -19,7 +19,10 @@ RULE = (
     "changes by item, attribute and set() (also with one mapping object given to two instances), add_render_rule, "
     "reset_rules blocks, probes. Oracle: each instance's probe result (tokens, HTML, env; env omitted and {}) must "
     "equal that of a fresh instance built by replaying only the instance's own configuration recipe; module presets "
-    "and caller-owned mappings must stay deep-equal to their snapshots. Non-trivial = >= 2 instances, a "
+    "and caller-owned mappings must stay deep-equal to their snapshots. A tenth of the histories use a few documents "
+    "at scale and one shared env holding a 60 000-character definition; the probe's four entry points are tried in "
+    "rotating order. Histories that begin with the process: 56 scenarios (instance kind incl. renderer_cls subclasses "
+    "x what was built/used before) are run in two fresh interpreters each, probe instance first vs last. Non-trivial = >= 2 instances, a "
     "configuration operation after a parse, and a probe document using a label defined in an earlier document; "
     "distinct = distinct case hash."
 )
@@ -94,6 +97,122 @@ def budget(tier: str) -> dict:
     return {"examples": 16000 if tier == "quick" else 500000}
 
 
+# --------------------------------------------------------------------------------------------
+# histories that start with the process: whatever was constructed or rendered earlier in the process (including "nothing")
+# must not matter.  Each scenario is run in two fresh interpreters - probe instance first / probe instance last.
+
+_PO_SCRIPT = r"""
+import json, sys
+sys.path.insert(0, sys.argv[1])
+from markdown_it import MarkdownIt, presets
+from markdown_it.renderer import RendererHTML
+
+
+class Sub(RendererHTML):
+    def strong_open(self, tokens, idx, options, env):
+        return "<b>"
+
+    def hr(self, tokens, idx, options, env):
+        return "<hr class=x>\n"
+
+    def text(self, tokens, idx, options, env):
+        return tokens[idx].content.upper().replace("&", "&amp;").replace("<", "&lt;")
+
+
+class Sub2(RendererHTML):
+    def em_open(self, tokens, idx, options, env):
+        return "<i>"
+
+    def heading_open(self, tokens, idx, options, env):
+        return "<h1 class=t>"
+
+
+class SubSub(Sub):
+    def s_open(self, tokens, idx, options, env):
+        return "<del>"
+
+
+DOCS = ["# h\n\n**s** *e* ~~d~~ `c`\n\n---\n\n- a\n\n\"q\" (c) -- [l](u) ![i](s) <http://a.b> &amp;\n\n```py\nf\n```\n\n| t |\n|---|\n", "[r]: /u\n\n[r] x\n"]
+
+
+def rr(self, tokens, idx, options, env):
+    return "<b>"
+
+
+PROBES = {
+    "renderer_cls": lambda: MarkdownIt("commonmark", renderer_cls=Sub),
+    "renderer_subsub": lambda: MarkdownIt("js-default", renderer_cls=SubSub),
+    "typographer": lambda: MarkdownIt("js-default", {"typographer": True}),
+    "zero+rules": lambda: MarkdownIt("zero").enable(["emphasis", "list", "table", "strikethrough"]),
+    "preset-dict": lambda: MarkdownIt(presets.commonmark.make()),
+    "render-rule": lambda: (lambda m: (m.add_render_rule("strong_open", rr), m)[1])(MarkdownIt("commonmark")),
+    "default": lambda: MarkdownIt(),
+}
+OTHERS = {
+    "default-instance": lambda: [MarkdownIt()],
+    "default-used": lambda: [MarkdownIt().render(d) for d in DOCS],
+    "other-renderer_cls": lambda: [MarkdownIt("commonmark", renderer_cls=Sub2).render(d) for d in DOCS],
+    "same-renderer_cls": lambda: [MarkdownIt("zero", renderer_cls=Sub).render(DOCS[0])],
+    "zero-used": lambda: [MarkdownIt("zero").render(d) for d in DOCS],
+    "typographer-used": lambda: [MarkdownIt("js-default", {"typographer": True, "quotes": "<<>>"}).render(d) for d in DOCS],
+    "configured": lambda: [MarkdownIt("commonmark").enable("table").disable("emphasis").render(DOCS[0])],
+    "render-rule-added": lambda: (lambda m: (m.add_render_rule("hr", rr), m.render(DOCS[0])))(MarkdownIt()),
+}
+probe, other, order = sys.argv[2], sys.argv[3], sys.argv[4]
+
+
+def run_probe():
+    md = PROBES[probe]()
+    return [md.render(d) for d in DOCS] + [repr(sorted(md.renderer.rules)), repr(md.get_active_rules())]
+
+
+if order == "first":
+    out = run_probe()
+    OTHERS[other]()
+else:
+    OTHERS[other]()
+    out = run_probe()
+print(json.dumps(out))
+"""
+PO_PROBES = ["renderer_cls", "renderer_subsub", "typographer", "zero+rules", "preset-dict", "render-rule", "default"]
+PO_OTHERS = ["default-instance", "default-used", "other-renderer_cls", "same-renderer_cls", "zero-used", "typographer-used", "configured", "render-rule-added"]
+
+
+def enumerate_cases(tier: str, shard: int, nshards: int):
+    idx = 0
+    for pr in PO_PROBES:
+        for ot in PO_OTHERS:
+            idx += 1
+            if idx % nshards == shard:
+                yield {"kind": "process-order", "probe": pr, "other": ot}
+
+
+def check_process_order(case) -> Res:
+    import json
+    import os
+    import subprocess
+    import sys
+
+    from .. import boot
+
+    res = Res()
+    res.cls.append("process-order")
+    outs = {}
+    for order in ("first", "last"):
+        p = subprocess.run([sys.executable, "-c", _PO_SCRIPT, os.path.dirname(boot.lib_root()), case["probe"], case["other"], order], capture_output=True, text=True, timeout=300, env={"PYTHONHASHSEED": "0", "PATH": "/usr/bin:/bin"})
+        if p.returncode != 0:
+            if "markdown_it" in p.stderr and "verif" not in p.stderr.split("Traceback")[-1]:
+                res.fail("process-order:exception", f"probe {case['probe']} {order} (other: {case['other']}): {p.stderr[-300:]}")
+                return res
+            raise RuntimeError("process-order helper failed: " + p.stderr[-800:])
+        outs[order] = json.loads(p.stdout)
+    res.nt = True
+    if outs["first"] != outs["last"]:
+        j = [a != b for a, b in zip(outs["first"], outs["last"])].index(True)
+        res.fail("process-order:result-depends-on-earlier-instances", f"instance '{case['probe']}' built as the first thing in a process gives {outs['first'][j]!r}, built after '{case['other']}' it gives {outs['last'][j]!r}"[:600])
+    return res
+
+
 @st.composite
 def _case(draw):
     d = gen.D(draw)
@@ -150,6 +269,8 @@ def _full_options(md) -> dict:
 
 
 def check(case) -> Res:
+    if case.get("kind") == "process-order":
+        return check_process_order(case)
     import markdown_it.main as mainmod
     from markdown_it import MarkdownIt, presets
 
